@@ -106,6 +106,10 @@ pub struct Step {
     /// the first extra waiter gives up (drops its ticket clone) after this many ms if still unresolved
     #[serde(default)]
     pub cancel_after: Option<u64>,
+    /// the last extra waiter polls its ticket for this many ms, then clones it (an already-polled ticket) and
+    /// hands the clone to a fresh task; it keeps (true) or drops (false) the original
+    #[serde(default)]
+    pub late_clone: Option<(u64, bool)>,
 }
 
 #[derive(Clone, Debug, Serialize, Deserialize, PartialEq, Eq, Hash)]
@@ -291,6 +295,23 @@ pub async fn cancelling_waiter(ticket: Ticket, op: u32, w: u8, ms: u64) {
     }
 }
 
+/// polls its ticket for `ms`; if still pending, clones the (already polled) ticket into a new waiter task
+pub async fn late_cloning_waiter(mut ticket: Ticket, op: u32, w: u8, ms: u64, keep: bool) {
+    match tokio::time::timeout(Duration::from_millis(ms), &mut ticket).await {
+        Ok(()) => log(Ev::Resolved { op, waiter: w }),
+        Err(_) => {
+            let late = tokio::spawn(waiter(ticket.clone(), op, 100 + w));
+            log(Ev::Note { what: "late-clone", a: op as i64, b: keep as i64 });
+            if keep {
+                waiter(ticket, op, w).await;
+            } else {
+                drop(ticket);
+            }
+            let _ = late.await;
+        }
+    }
+}
+
 pub async fn sender_task(si: usize, steps: Vec<Step>, job: Job, jobno: u8) {
     let mut handles = Vec::new();
     for (i, st) in steps.iter().enumerate() {
@@ -301,8 +322,9 @@ pub async fn sender_task(si: usize, steps: Vec<Step>, job: Job, jobno: u8) {
         log(Ev::CtlSend { job: jobno, sender: si as u8, op: id, what: st.op.name() });
         let ticket = issue(&job, &st.op, id, jobno);
         for w in 0..st.waiters {
-            match (w, st.cancel_after) {
-                (0, Some(ms)) => handles.push(tokio::spawn(cancelling_waiter(ticket.clone(), id, w, ms))),
+            match (w, st.cancel_after, st.late_clone) {
+                (0, Some(ms), _) => handles.push(tokio::spawn(cancelling_waiter(ticket.clone(), id, w, ms))),
+                (w, _, Some((ms, keep))) if w + 1 == st.waiters => handles.push(tokio::spawn(late_cloning_waiter(ticket.clone(), id, w, ms, keep))),
                 _ => handles.push(tokio::spawn(waiter(ticket.clone(), id, w))),
             }
         }
@@ -495,7 +517,8 @@ pub fn gen_random(rng: &mut Rng, cfg: &GenCfg) -> E1Scn {
         let waiters = if rng.chance(1, 3) { rng.range(1, 3) as u8 } else { (rng.chance(1, 2)) as u8 };
         let inline = rng.chance(1, 5);
         let cancel_after = if waiters >= 2 && rng.chance(1, 4) { Some(*rng.pick(&[0u64, 1, 5, 50])) } else { None };
-        senders[s].push(Step { gap, op, waiters, inline, cancel_after });
+        let late_clone = if waiters >= 1 && rng.chance(1, 5) { Some((*rng.pick(&[0u64, 1, 5, 50]), rng.chance(1, 2))) } else { None };
+        senders[s].push(Step { gap, op, waiters, inline, cancel_after, late_clone });
     }
     let n_children = rng.range(1, 4);
     let mut children = Vec::new();
